@@ -97,7 +97,7 @@ Definition resync_stmt : Prop :=
   (forall now s, reachable now s -> mid_escape s = false ->
      exists s1, run now s [ESC; STX] = Ok (s1, []) /\
        coming s1 = false /\ sot s1 = true /\ escd s1 = false /\ buf s1 = [] /\ bsum s1 = 0 /\ dsrc s1 = dsrc s) /\
-  (forall now s t l, same_visible s t -> mem_ok s -> mem_ok t -> bytes l ->
+  (forall now s t l, same_visible s t -> reachable now s -> reachable now t -> bytes l ->
      exists s' t' ms, run now s l = Ok (s', ms) /\ run now t l = Ok (t', ms) /\ same_visible s' t').
 
 (* 5. ReadOut=false reports the same messages and reaches the same state; the bytes it leaves to the caller are never ESC and
